@@ -43,7 +43,7 @@ def run(rep: Report) -> None:
             rep.refuted("P-formula", inst, r.where, f"raises: {r.raised}",
                         key=f"P|{r.impl}|{r.prim}|{r.config}")
             continue
-        diffs = PC.equal_terms(r.term, PC.spec_term(r.prim, r.args), r.n1, nz)
+        diffs = PC.equal_terms(r.term, PC.spec_term(r.prim, r.args), PC.prim_env(r.prim, r.n1), nz)
         rep.check(
             not diffs, "P-formula", inst, r.where,
             "" if not diffs else
